@@ -84,6 +84,20 @@ ADD3 = {
  "C14": " Round 3: no mutable global state in the decoding path (R-C14-globals).",
  "C15": " Round 3: start and length of semantic tokens are not byte quantities (R-C15-units, numeric slice incl. the lexer's producer of Token.col); the advertised legend is the constant itself (R-C15-legend); the lexer consumes nothing silently (R-C15-tile).",
 }
+ADD4 = {
+ "C01": " Round 4: literal text is never trimmed by content (R-C01-trim).",
+ "C04": " Round 4: no hand-written member of a recursive component repeats a recursive call on the same value (R-C04-fanout); grammar constructs that turn a flat repetition into nesting are listed (R-C04-depth: two known findings).",
+ "C05": " Round 4: spans filled from peg positions are token indices, not offsets (R-C05-prov token-index class); join arguments in source order (R-C05-joinorder); the stored document text is the text received (R-C05-verbatim).",
+ "C06": " Round 4: per-scope visitor state (R-C06-scope).",
+ "C07": " Round 4: every declaration kind that can name another type adds an edge (R-C07-decledges).",
+ "C08": " Round 4: no ordered choice splits a glued and a spaced spelling of the same first token (R-C08-glue).",
+ "C09": " Round 4: no wrap-around arithmetic on literal paths (R-C09-wrap).",
+ "C10": " Round 4: the rendered text is not post-processed (R-C10-post); sub-second integers are padded to the digits of their unit (R-C10-fracpad); delimiters that parse as a wrapper node are written only for that node (R-C10-wrapnode, two known findings).",
+ "C11": " Round 4: one identity per file: FileIds come from file-system paths (R-C11-idorigin).",
+ "C12": " Round 4: responses sent by callees count (R-C12-reply, transitive); R-C12-fanout, R-C12-depth.",
+ "C13": " Round 4: the directory is listed under its canonical path (R-C13-dir).",
+ "C15": " Round 4: the document text is stored verbatim (R-C15-verbatim).",
+}
 NA_REASON = "check not built yet (round 1 in progress); see DESIGN.md section 3 for the planned static rules"
 props = [json.loads(l) for l in open("/verif/properties.jsonl")]
 checks = []
@@ -98,7 +112,7 @@ for p in props:
         "evidence_file": "/verif/evidence/%s.json" % p["id"],
         "replay_cmd_template": "./check %s --replay {path}" % p["id"],
         "engine": "mirfacts+rules",
-        "level_claimed": {"category": "other", "text": c["text"] + ADD.get(p["id"], "") + ADD3.get(p["id"], ""), "design_ref": c["design"] + ", R2, R3"},
+        "level_claimed": {"category": "other", "text": c["text"] + ADD.get(p["id"], "") + ADD3.get(p["id"], "") + ADD4.get(p["id"], ""), "design_ref": c["design"] + ", R2, R3, R4"},
         "level_note": NOTE,
         "technique": c["technique"],
     })
